@@ -49,4 +49,11 @@ theorem response_rcode_src : response_rcode_rhs = "dnsmsg.RCode(resp.Rcode)" := 
 /-- The logged name is the question of the request as received, not of a response. -/
 theorem entry_name_src : entry_name_rhs = "fctx.originalRequest.Question[0]" := by decide
 
+def cacheProfileLiteral : String :=
+  "pbProfiles, &Profile{ FilterConfig: filterConfigToProtobuf(p.FilterConfig), Access: accessToProtobuf(p.Access.Config()), BlockingMode: blockingModeToProtobuf(p.BlockingMode), Ratelimiter: ratelimiterToProtobuf(p.Ratelimiter.Config()), ProfileId: string(p.ID), DeviceIds: unsafelyConvertStrSlice[agd.DeviceID, string](p.DeviceIDs), FilteredResponseTtl: durationpb.New(p.FilteredResponseTTL), AutoDevicesEnabled: p.AutoDevicesEnabled, BlockChromePrefetch: p.BlockChromePrefetch, BlockFirefoxCanary: p.BlockFirefoxCanary, BlockPrivateRelay: p.BlockPrivateRelay, Deleted: p.Deleted, FilteringEnabled: p.FilteringEnabled, IpLogEnabled: p.IPLogEnabled, QueryLogEnabled: p.QueryLogEnabled, }"
+/-- The write side of the cache file (`filecachepb.profilesToProtobuf`, not translatable: it loops): in the
+`Profile` message appended for profile `p`, `ProfileId`, `Deleted`, `IpLogEnabled` and `QueryLogEnabled` are filled
+from `p`'s field of the same meaning (`cacheOfProf` in the model). -/
+theorem cache_profile_literal_src : cache_profile_literal = cacheProfileLiteral := rfl
+
 end Agd.Tie.C15
